@@ -27,6 +27,16 @@ type NodeSpec struct {
 	Value    string     `json:"v,omitempty"`
 	Pointer  string     `json:"p,omitempty"`
 	Children []NodeSpec `json:"c,omitempty"`
+	// Rep > 1: the value is Value repeated Rep times (long lines without
+	// long case files)
+	Rep int `json:"rep,omitempty"`
+}
+
+func (s NodeSpec) value() string {
+	if s.Rep > 1 {
+		return strings.Repeat(s.Value, s.Rep)
+	}
+	return s.Value
 }
 
 type ReadPlan struct {
@@ -67,6 +77,14 @@ type StreamCfg struct {
 	// the unambiguous grammar: the reference tree is not compared, only the
 	// delivery independence, the fix-point and the read-error oracle apply.
 	Mutated bool `json:"mutated,omitempty"`
+	// Edits (roundtrip): after the document has been built AND written once,
+	// it is changed through the public API ("setsex 0 F", "addname 1 x /y/",
+	// "sethusb 0 I2", "setwife 0 I1", "addbirth 0 1 Jan 1900"); the round trip
+	// is judged on the edited document.
+	Edits []string `json:"edits,omitempty"`
+	// Prior: streams decoded (with the same options) before anything else in
+	// this case: what a process has decoded before must not matter.
+	Prior []string `json:"prior,omitempty"`
 }
 
 func bytesToSegs(b []byte) []string {
@@ -409,6 +427,19 @@ func genSpec(r *rand.Rand, depth, maxDepth int, budget *int) NodeSpec {
 	}
 	s.Value = pick(r, valuePool)
 	s.Pointer = pick(r, pointerPool)
+	if r.IntN(150) == 0 {
+		// a long line: around the sizes at which buffers of 256 bytes, 4 KB
+		// and 64 KB (bufio.Scanner's token limit) end, and well past them
+		unit := pick(r, []string{"x", "ab", "é", "long value ", "@"})
+		total := pick(r, []int{250, 255, 256, 257, 4090, 4096, 4100, 65520, 65529, 65536, 65540, 70000, 200000})
+		if r.IntN(12) == 0 {
+			total = 1 << 20
+		}
+		s.Value, s.Rep = unit, total/len(unit)+r.IntN(3)
+		if strings.HasSuffix(unit, " ") {
+			s.Value = "long value."
+		}
+	}
 	if s.Tag == "SEX" {
 		// SexNode has no children constructor argument
 	}
@@ -479,6 +510,25 @@ func genRoundTripCase(prop, tier string, r *rand.Rand) *Case {
 		}
 		cfg.Forest = append(cfg.Forest, s)
 	}
+	if r.IntN(4) == 0 {
+		// the document is written once, changed, and written again
+		for k := 1 + r.IntN(3); k > 0; k-- {
+			i := itoa(r.IntN(3))
+			switch r.IntN(6) {
+			case 0, 1:
+				// set, write, set again: the second one replaces a value in place
+				cfg.Edits = append(cfg.Edits, "setsex "+i+" "+pick(r, []string{"M", "F"}), "render", "setsex "+i+" "+pick(r, []string{"M", "F", "U", ""}))
+			case 2:
+				cfg.Edits = append(cfg.Edits, "addname "+i+" "+pick(r, []string{"Ann /Lee/", "x", "//"}))
+			case 3:
+				cfg.Edits = append(cfg.Edits, "sethusb "+i+" "+pick(r, []string{"I1", "I2", "X9"}))
+			case 4:
+				cfg.Edits = append(cfg.Edits, "setwife "+i+" "+pick(r, []string{"I1", "I2", "X9"}))
+			default:
+				cfg.Edits = append(cfg.Edits, "addbirth "+i+" "+pick(r, []string{"1 Jan 1900", "Abt. 1850"}))
+			}
+		}
+	}
 	cfg.Plans = genReadPlans(r, 0, 4)
 	cfg.AllWriteFaults = true
 	if r.IntN(3) == 0 {
@@ -519,7 +569,7 @@ func buildDoc(cfg *StreamCfg) (doc *gedcom.Document, err error) {
 		for _, c := range s.Children {
 			children = append(children, build(c))
 		}
-		return gedcom.NewNode(gedcom.TagFromString(s.Tag), s.Value, s.Pointer, children...)
+		return gedcom.NewNode(gedcom.TagFromString(s.Tag), s.value(), s.Pointer, children...)
 	}
 	for _, s := range cfg.Forest {
 		switch s.Tag {
@@ -548,6 +598,57 @@ func buildDoc(cfg *StreamCfg) (doc *gedcom.Document, err error) {
 	return doc, nil
 }
 
+// applyStreamEdits changes a built document through public mutators; an edit
+// whose target does not exist is skipped.
+func applyStreamEdits(doc *gedcom.Document, edits []string) (panicVal string) {
+	defer func() {
+		if p := recover(); p != nil {
+			panicVal = fmt.Sprint(p)
+		}
+	}()
+	for _, e := range edits {
+		f := strings.SplitN(e, " ", 3)
+		if e == "render" {
+			f = []string{"render", "0"}
+		}
+		if len(f) < 2 {
+			continue
+		}
+		idx := 0
+		fmt.Sscan(f[1], &idx)
+		arg := ""
+		if len(f) == 3 {
+			arg = f[2]
+		}
+		inds, fams := doc.Individuals(), doc.Families()
+		switch f[0] {
+		case "render":
+			_ = doc.String()
+		case "setsex":
+			if len(inds) > 0 {
+				inds[idx%len(inds)].SetSex(arg)
+			}
+		case "addname":
+			if len(inds) > 0 {
+				inds[idx%len(inds)].AddName(arg)
+			}
+		case "addbirth":
+			if len(inds) > 0 {
+				inds[idx%len(inds)].AddBirthDate(arg)
+			}
+		case "sethusb":
+			if len(fams) > 0 {
+				fams[idx%len(fams)].SetHusbandPointer(arg)
+			}
+		case "setwife":
+			if len(fams) > 0 {
+				fams[idx%len(fams)].SetWifePointer(arg)
+			}
+		}
+	}
+	return ""
+}
+
 func runRoundTrip(t *testing.T, c *Case, cr *CaseResult) *CaseResult {
 	cfg := c.Stream
 	prop := c.Prop
@@ -557,9 +658,23 @@ func runRoundTrip(t *testing.T, c *Case, cr *CaseResult) *CaseResult {
 		return cr
 	}
 	cr.Valid = true
-	want := dumpForest(fromDoc(doc), true)
 	st := &streamStats{}
 	defer func() { foldStreamStats(cr, st) }()
+	for _, prior := range cfg.Prior {
+		decodeWith([]byte(prior), wholePlan(), false, false, st)
+		cr.count("history.prior_decode", 1)
+	}
+	if len(cfg.Edits) > 0 {
+		// written once (every line rendered), then edited
+		_ = doc.String()
+		if perr := applyStreamEdits(doc, cfg.Edits); perr != "" {
+			cr.observe("edit cannot be made through the public API: " + clip(perr, 80))
+			cr.Valid = false
+			return cr
+		}
+		cr.count("history.edit_after_first_write", int64(len(cfg.Edits)))
+	}
+	want := dumpForest(fromDoc(doc), true)
 
 	// fault-free encode
 	w := &SimWriter{}
@@ -728,7 +843,12 @@ func foldStreamStats(cr *CaseResult, st *streamStats) {
 // ---------------------------------------------------------------------------
 // C02: reference line grammar
 
-var refLineRe = regexp.MustCompile(`^([0-9]{1,2}) +(?:@([^@]+)@ )?([A-Za-z0-9_]+)(?: (.*))?$`)
+// The tag is the longest run of letters, digits and '_'; what follows it is
+// the value, with or without a separating space ("0 NOTE@x" is a NOTE with
+// the value "@x": the statement is silent about a missing separator, the
+// decoder's documented pattern allows it, and the normal form is stable).
+// Exactly one space follows the xref.
+var refLineRe = regexp.MustCompile(`^([0-9]{1,2}) +(?:@([^@]+)@ )?([A-Za-z0-9_]+) ?(.*)$`)
 
 // refParse is the independent model of the documented line grammar. It works
 // on the complete byte string and knows nothing about delivery.
@@ -753,7 +873,8 @@ func refParse(data []byte, ml, ii bool) (roots []*refNode, hasBOM bool, ok bool)
 		}
 		m := refLineRe.FindStringSubmatch(line)
 		if m == nil {
-			if ml && prev != nil {
+			// a record line carries no value, so nothing can continue it
+			if ml && prev != nil && prev.tag != "INDI" && prev.tag != "FAM" {
 				prev.value += "\n" + line
 				continue
 			}
@@ -857,6 +978,10 @@ func genStructureCase(prop, tier string, r *rand.Rand) *Case {
 		line := fmt.Sprintf("%d", level) + strings.Repeat(" ", 1+r.IntN(2)*r.IntN(3))
 		if r.IntN(4) == 0 || ((tag == "INDI" || tag == "FAM") && level == 0) {
 			line += "@" + pick(r, []string{"I1", "F2", "x y", "é", "1"}) + "@ "
+			if r.IntN(150) == 0 {
+				// a run of spaces after the xref: not a line of the grammar
+				line += strings.Repeat(" ", 1+r.IntN(2))
+			}
 		}
 		line += tag
 		switch r.IntN(6) {
@@ -870,9 +995,9 @@ func genStructureCase(prop, tier string, r *rand.Rand) *Case {
 		b = append(b, line...)
 		b = append(b, eol()...)
 		// a continuation line (multi-line mode): never shaped like a valid
-		// line, and never after a record line (INDI/FAM lines carry no value,
-		// so what a continuation of one means is outside the grammar)
-		if cfg.AllowMultiLine && r.IntN(6) == 0 && tag != "INDI" && tag != "FAM" {
+		// line. After a record line (INDI/FAM lines carry no value) it makes
+		// the stream unacceptable; that is rare enough to keep most streams.
+		if cfg.AllowMultiLine && r.IntN(6) == 0 && (tag != "INDI" && tag != "FAM" || r.IntN(8) == 0) {
 			cont := pick(r, []string{"continued text", "  indented words", "more: 1 2 3", "@ not a line", "x"})
 			b = append(b, cont...)
 			b = append(b, pick(r, []string{"\n", "\r\n"})...)
@@ -923,6 +1048,10 @@ func runStructure(t *testing.T, c *Case, cr *CaseResult) *CaseResult {
 	ml, ii := cfg.AllowMultiLine, cfg.AllowInvalidIndents
 	cr.Probes[fmt.Sprintf("multiline=%v,invalid_indents=%v", ml, ii)]++
 
+	for _, prior := range cfg.Prior {
+		decodeWith([]byte(prior), wholePlan(), ml, ii, st)
+		cr.count("history.prior_decode", 1)
+	}
 	ref, refBOM, refOK := refParse(data, ml, ii)
 	base := decodeWith(data, wholePlan(), ml, ii, st)
 	cr.Runs++
@@ -945,8 +1074,9 @@ func runStructure(t *testing.T, c *Case, cr *CaseResult) *CaseResult {
 		cr.Probes["accepted"]++
 		if cfg.Mutated {
 			cr.Probes["mutated_accepted"]++
-		} else if !refOK {
-			cr.observe("decoder accepts a stream the reference grammar rejects")
+		}
+		if !refOK {
+			cr.violate(prop+"/structure", "decoder accepts a stream that the line grammar does not derive", fmt.Sprintf("input: %q\ngot:\n%s", clip(string(data), 500), clip(dumpForest(fromDoc(base.doc), false), 600)))
 		} else {
 			got := dumpForest(fromDoc(base.doc), false)
 			want := dumpForest(ref, false)
@@ -959,17 +1089,11 @@ func runStructure(t *testing.T, c *Case, cr *CaseResult) *CaseResult {
 			cr.Probes["compared_with_reference"]++
 		}
 		// normal form: decode(encode(doc)) is the same tree and re-encodes to
-		// the same bytes (not judged for mutated streams: a mutation can put a
-		// continuation line after a record line, which is outside the grammar)
+		// the same bytes
 		s1 := base.doc.String()
-		if cfg.Mutated {
-			s1 = ""
-		}
 		d2 := decodeWith([]byte(s1), wholePlan(), ml, ii, st)
 		cr.Runs++
-		if cfg.Mutated {
-			// nothing to compare
-		} else if d2.err != nil || d2.panicVal != "" {
+		if d2.err != nil || d2.panicVal != "" {
 			// whether encoder output is always accepted is C01's subject; here
 			// only note it
 			cr.observe("re-encoded text is not accepted again: " + clip(fmt.Sprint(d2.err, d2.panicVal), 100))
@@ -1021,6 +1145,19 @@ func runStructure(t *testing.T, c *Case, cr *CaseResult) *CaseResult {
 					cr.violate(prop+"/read-error", "read error swallowed: a document is returned",
 						fmt.Sprintf("the reader failed at offset %d of %d (with data in the same call: %v) and Decode returned a document and a nil error", k, len(data), withData))
 				}
+				// history: the retry on a healthy stream gives what the first
+				// decode gave, whatever failed in between (judged for a
+				// sample of the offsets, and once more after the last one)
+				if !withData && (k%7 == 3 || k == len(data)) {
+					again := decodeWith(data, wholePlan(), ml, ii, st)
+					cr.Runs++
+					cr.count("history.decode_after_failed_decode", 1)
+					if v := verdict(again); v != baseVerdict {
+						cr.violate(prop+"/history", "the result of a decode depends on an earlier, failed decode in the same process",
+							fmt.Sprintf("after the reader had failed at offset %d of %d, decoding the healthy stream gave\n%s\ninstead of\n%s", k, len(data), clip(v, 400), clip(baseVerdict, 400)))
+						break
+					}
+				}
 			}
 		}
 		cr.Distinct = append(cr.Distinct, fmt.Sprintf("%x|errs", hashBytes(data)))
@@ -1041,7 +1178,39 @@ func pick2(k int) int {
 func genTotalityCase(prop, tier string, r *rand.Rand) *Case {
 	cfg := &StreamCfg{Mode: "totality", AllowMultiLine: r.IntN(2) == 0, AllowInvalidIndents: r.IntN(2) == 0}
 	var b []byte
-	switch r.IntN(6) {
+	switch r.IntN(7) {
+	case 6: // a line that ends right at, before or after a buffer boundary
+		total := pick(r, []int{200, 250, 254, 255, 256, 257, 258, 260, 510, 512, 514, 4094, 4096, 4098, 65534, 65536, 65538})
+		tail := pick(r, []string{"", "é", "Ж", "€", "\U0001F600", "\xff", "é\xc3"})
+		var head string
+		switch r.IntN(5) {
+		case 0:
+			head = "not a line at all " // could not parse
+		case 1:
+			head = "1 HUSB @I1@ " // outside of a family
+		case 2:
+			head = "3 NOTE " // indent without a parent / too large
+		case 3:
+			head = "0 HEAD\n5 NOTE "
+		default:
+			head = "0 NOTE "
+		}
+		fill := pick(r, []string{"x", "é", "Ж"})
+		pre, body := "", head
+		if i := strings.LastIndex(head, "\n"); i >= 0 {
+			pre, body = head[:i+1], head[i+1:]
+		}
+		for len(body)+len(fill)+len(tail) <= total {
+			body += fill
+		}
+		for len(body)+len(tail) < total {
+			body += "x" // the line is exactly total bytes long
+		}
+		line := pre + body
+		b = append([]byte(line), tail...)
+		if r.IntN(2) == 0 {
+			b = append(b, pick(r, []string{"\n", "\r\n", "\n1 NOTE after\n"})...)
+		}
 	case 0: // random bytes
 		n := r.IntN(200)
 		for i := 0; i < n; i++ {
@@ -1054,6 +1223,8 @@ func genTotalityCase(prop, tier string, r *rand.Rand) *Case {
 			b = append(b, alphabet[r.IntN(len(alphabet))])
 		}
 	case 2: // structure-aware adversarial
+		// the same lines in their proper places, decoded before
+		cfg.Prior = []string{"0 HEAD\n1 CHAR UTF-8\n0 @I1@ INDI\n1 NAME x /y/\n1 NAME x\n0 @I2@ INDI\n0 @F1@ FAM\n1 HUSB @I1@\n1 WIFE @I2@\n1 CHIL @I1@\n1 MARR\n2 HUSB\n0 TRLR\n"}
 		lines := []string{"0 HEAD", "1 CHAR UTF-8", "0 @I1@ INDI", "1 NAME x /y/", "0 @F1@ FAM", "1 HUSB @I1@", "1 WIFE @I2@", "1 CHIL @I1@",
 			"0 HUSB @I1@", "0 CHIL @I1@", "1 WIFE @I2@", "2 HUSB", "1 NAME x", "3 DATE 1 Jan 1900", "9 NOTE deep", "1 INDI", "1 FAM", "2 FAM",
 			"0 @I1@ INDI value", "0 TRLR", "", "garbage", "10 NOTE ten", "1  NAME two spaces", "1 @@ NAME", "1 @a@b@ NAME", "0", "0 ", " 0 HEAD", "-1 NAME", "1 NAME\x00nul"}
@@ -1065,6 +1236,9 @@ func genTotalityCase(prop, tier string, r *rand.Rand) *Case {
 	case 3: // mutated GEDCOM
 		g := GenGraph(r, GraphOpts{People: r.IntN(4), DeathProb: 0.5})
 		b = []byte(g.Text())
+		if r.IntN(2) == 0 {
+			cfg.Prior = []string{g.Text()} // the file as it was before it was damaged
+		}
 		for k := r.IntN(6); k > 0 && len(b) > 0; k-- {
 			i := r.IntN(len(b))
 			switch r.IntN(4) {
@@ -1131,6 +1305,10 @@ func runTotality(t *testing.T, c *Case, cr *CaseResult) *CaseResult {
 	st := &streamStats{}
 	defer func() { foldStreamStats(cr, st) }()
 	ml, ii := cfg.AllowMultiLine, cfg.AllowInvalidIndents
+	for _, prior := range cfg.Prior {
+		decodeWith([]byte(prior), wholePlan(), ml, ii, st)
+		cr.count("history.prior_decode", 1)
+	}
 
 	judge := func(what string, o decodeOutcome, injected bool) {
 		cr.Runs++
